@@ -464,6 +464,7 @@ template<typename Props> LargeMemoryBlock *LargeObjectCacheImpl<Props>::
     LargeMemoryBlock *lmb=nullptr;
     OpGet data = {&lmb, size, static_cast<uintptr_t>(0)};
     CacheBinOperation op(data);
+    __TBB_VERIF_POINT(vp_tm_loc_get, this, 0);
     ExecuteOperation( &op, extMemPool, bitMask, idx );
     return lmb;
 }
@@ -475,6 +476,7 @@ template<typename Props> void LargeObjectCacheImpl<Props>::
 
     OpPutList data = {head};
     CacheBinOperation *op = new (head+1) CacheBinOperation(data, CBST_NOWAIT);
+    __TBB_VERIF_POINT(vp_tm_loc_put, this, 0);
     ExecuteOperation( op, extMemPool, bitMask, idx, false );
 }
 
